@@ -71,7 +71,7 @@ Proof. intros. split; [apply spline_total|apply spline_rejects]. Qed.
 
 (* ---- binary64: deviation of the returned cubic from the exact construction ---- *)
 From Flocq Require Import Core BinarySingleNaN.
-Require Import PP.FloatFacts PP.ErrorBound PP.ErrorRun PP.Proofs.KernelBounds.
+Require Import PP.FloatFacts PP.ErrorBound PP.ErrorRun PP.SafeDec PP.Proofs.KernelBounds.
 
 (* coefficient i (1..4 = a, b, c, d) of spline::segment as a term over inputs [f0; x0; y0; f1; x1; y1] *)
 Definition coef_e (i : nat) : expr := nth i k_spline__segment (Lit 0).
@@ -119,4 +119,17 @@ Proof.
   intros f0 x0 y0 f1 x1 y1 env Hs Hdx ch er.
   destruct (C04_hermite (B2R f0) (B2R x0) (B2R y0) (B2R f1) (B2R x1) (B2R y1) Hdx) as (E0 & E1 & _).
   split; [rewrite <- E0|rewrite <- E1]; apply C04_cubic_deviation; exact Hs.
+Qed.
+
+(* non-vacuity: a concrete segment input (f0, x0, y0, f1, x1, y1) = (0.8, 0.3, 1.0, 1.9, 2.1, 3.6) satisfies safe_run for all
+   four coefficients (decided by exact rational arithmetic, lib/SafeDec.v), and x1 - x0 <> 0 *)
+Example C04_float_hypotheses_hold :
+  let env := map of_bits [4605380978949069210; 4599075939470750515; 4607182418800017408; 4611235658464650854; 4611911198408756429; 4615288898129284301]%Z in
+  (forall i, (1 <= i <= 4)%nat -> safe_run env (coef_e i)) /\ B2R (nth 4 env fnan) - B2R (nth 1 env fnan) <> 0.
+Proof.
+  cbv zeta. split.
+  - intros i Hi. assert (C : (i = 1 \/ i = 2 \/ i = 3 \/ i = 4)%nat) by lia.
+    destruct C as [->|[->|[->| ->]]]; apply srun_sound; vm_compute; reflexivity.
+  - cbn [map nth]. rewrite <- !F2Q_correct, <- Qreals.Q2R_minus. intros E. rewrite <- Q2R_0 in E.
+    apply Qreals.eqR_Qeq in E. vm_compute in E. discriminate.
 Qed.
